@@ -718,7 +718,22 @@ def rule_i(ctx, out):
     extern["stack_encoding_for_position"] = family("stack-at-position", 0, "stack_encoding_for_position")
     extern["stack_encoding_for_position_empty"] = family("stack-at-position", 0, "stack_encoding_for_position_empty")
     extern["each_function_is_used_at_most_once"] = family("at-most-once", 2, "each_function_is_used_at_most_once")
-    mi = ModuleInterp(ctx, max_steps=200000, extern=extern, obj_types=(Obj,), inject={"InstructionSubset": subset})
+    class UOC(Obj):
+        """stand-in for UninterpretedOpcodeTermCreation: answers which representation of the stack terms was asked for"""
+        def __init__(self, *a, **k):
+            pass
+
+        def opcode_rep_with_uf(self, *a):
+            return ["uninterpreted symbols"]
+
+        def opcode_rep_with_stack_vars(self, *a):
+            return ["stack variables"]
+
+        def opcode_rep_with_int(self, *a):
+            return ["integer codes"]
+    conv = cls.methods.get("_initialize_term_to_variable_conversion")
+    mi = ModuleInterp(ctx, max_steps=200000, extern=extern, obj_types=(Obj,),
+                      inject={"InstructionSubset": subset, "UninterpretedOpcodeTermCreation": UOC, "Sort": Obj(uninterpreted="U", integer="I", uninterpreted_theta="T")})
     Full = mi.fake_class(cls)
     n = 0
     for combo in itertools.product(*values):
@@ -759,6 +774,17 @@ def rule_i(ctx, out):
                     if not have("at-most-once", st):
                         missing.append("at most once for a store")
                         break
+            # sibling agreement: where the stack terms are represented by uninterpreted symbols (whatever sort they get), nothing but an
+            # explicit constraint keeps two different terms apart
+            if conv is not None:
+                if not hasattr(flags, "empty"):
+                    flags.empty = False
+                try:
+                    rep = mi.call(conv, me)
+                except (Raised, Unsupported) as e:
+                    raise AnalysisError(f"_initialize_term_to_variable_conversion cannot be evaluated under {dict(zip(names, combo))}: {e}")
+                if rep == "uninterpreted symbols" and not have("expressions_are_distinct"):
+                    missing.append("distinctness of the stack terms (they are uninterpreted symbols under this setting)")
             if not missing:
                 out.ok()
             else:
